@@ -95,6 +95,7 @@ int main(int argc, char **argv) {
   auto genOp = rc::gen::exec([]() { BOp o; o.k = *rc::gen::weightedElement<int>({{3, B_HSET}, {1, B_HDEL}, {4, B_CSET}, {1, B_CDEL}, {1, B_IAT}, {2, B_OFFSET}, {3, B_SETKEY}, {2, B_SETCB}, {1, B_CLOCK}, {5, B_GEN}, {1, B_ERRCLR}});
     o.a = *UNI(0, 1 << 12); o.b = *UNI(0, 1 << 12); o.c = *UNI(0, 4); return o; });
   bool ok = rc::check("C10: tokens say what the builder was told", [&]() {
+    if (v::shrink_exhausted()) return;
     int prov = *UNI(0, 2); int len = *UNI(1, 27);
     std::vector<BOp> ops = *rc::gen::container<std::vector<BOp>>(len, genOp);
     SeqStats ss; std::string r = run_seq(prov, ops, &ss);
@@ -102,7 +103,7 @@ int main(int argc, char **argv) {
     if (ss.gens >= 2 && (ss.overriding || ss.user_algtyp || ss.mutating || ss.offset_change_between)) { uint64_t fp = prov; for (auto &o : ops) fp = mix(fp, fnv(bop_str(o))); st.nontrivial(fp);
       if (ss.overriding) st.cls("seq-with-overriding-claim"); if (ss.user_algtyp) st.cls("seq-with-user-alg/typ-header"); if (ss.mutating) st.cls("seq-with-mutating-callback"); if (ss.offset_change_between) st.cls("seq-with-offset-change-between-generates"); }
     if (st.want_sample()) st.sample(case_json(prov, ops));
-    if (!r.empty()) { std::string sig = "C10:" + r; if (st.is_known(sig)) { st.known_hits[sig]++; return; } lastfail = ops; lastprov = prov; lastwhy = r; lasttrace = TRACE; RC_FAIL(r); }
+    if (!r.empty()) { std::string sig = "C10:" + r; if (st.is_known(sig)) { st.known_hits[sig]++; return; } lastfail = ops; lastprov = prov; lastwhy = r; lasttrace = TRACE; v::fail_seen()++; RC_FAIL(r); }
   });
   if (!ok && !lastwhy.empty()) { TRACE = lasttrace; st.violation("C10:" + lastwhy, "builder output / state differs from the reference model: " + lasttrace.substr(lasttrace.size() > 700 ? lasttrace.size() - 700 : 0), case_json(lastprov, lastfail)); }
   return finish();
